@@ -44,6 +44,8 @@ VAR0 = {"entry": "data",        # Reader(<data file>) | "meta": Reader(<metadata
         "siblings": False,      # files of another recording (lf band, second probe) in the same directory
         "leftover": 0,          # what an incomplete ("P") leftover looks like: 0 shorter than the complete file | 1 of exactly
                                 # its size (last byte differs) | 2 longer (complete file followed by more bytes)
+        "linked": False,        # the data file the reader is pointed at is a symbolic link into a data store (another directory,
+                                # another name); its companions (.meta, .ch) are regular files next to the link
         "here": False,          # decompress_to_scratch(scratch_dir=None): the copy goes next to the compressed file
         "prior": None}          # earlier call on the same Reader object: {"op", "keep", "fail_at", "between"}
 
@@ -51,7 +53,8 @@ VAR0 = {"entry": "data",        # Reader(<data file>) | "meta": Reader(<metadata
 def draw_var(vr, **fixed):
     v = dict(VAR0, entry=vr.choice(["data", "meta"]), pathtype=vr.choice(["path", "str"]),
              obj=vr.choice(["open", "open", "unopened", "closed"]), keeparg=vr.choice(["explicit", "default"]),
-             scratchdir=vr.choice(["exists", "missing"]), siblings=vr.random() < 0.5, leftover=vr.randrange(3))
+             scratchdir=vr.choice(["exists", "missing"]), siblings=vr.random() < 0.5, leftover=vr.randrange(3),
+             linked=vr.random() < 0.3)
     v.update(fixed)
     return v
 
@@ -102,11 +105,14 @@ class World:
                 "cbin_tmp": d / f"{STEM}.cbin_tmp", "sbin": sd / f"{STEM}.bin",
                 "stmp": sd / f"{STEM}.bin_temp", "smeta": sd / f"{STEM}.meta"}
 
-    def setup(self, d, st, here=False, siblings=False, scratchdir="exists", leftover=0):
+    def setup(self, d, st, here=False, siblings=False, scratchdir="exists", leftover=0, linked=False):
         d = Path(d)
         if d.exists():
             shutil.rmtree(d)
         d.mkdir(parents=True)
+        store = d.parent / (d.name + "_store")
+        shutil.rmtree(store, ignore_errors=True)
+        self.stored = {}
         p = self.paths(d, here)
         if here:
             assert st["bin"] == "A"
@@ -132,7 +138,29 @@ class World:
                 p[n].write_text(self.meta_text)
         if siblings:
             self.sibling(d, STEM.replace("imec0", "imec1"))
+        if linked:
+            # the complete data files live in a store and are linked under the recording's names (seed round g: the reader
+            # followed the link and looked for / published / removed files next to the target)
+            store.mkdir()
+            for i, n in enumerate(("bin", "cbin")):
+                if st[n] == "C" and not (here and n == "bin"):
+                    tgt = store / f"dataset_{i:04d}{p[n].suffix}"
+                    shutil.move(p[n], tgt)
+                    p[n].symlink_to(tgt)
+                    self.stored[tgt] = tgt.read_bytes()
         return p
+
+    def store_state(self):
+        """"ok" when every file of the data store is what it was and nothing was added to the store"""
+        if not self.stored:
+            return "skip"
+        for tgt, b in self.stored.items():
+            if not tgt.exists():
+                return f"removed:{tgt.name}"
+            if tgt.read_bytes() != b:
+                return f"changed:{tgt.name}"
+        extra = sorted(f.name for f in next(iter(self.stored)).parent.iterdir() if f not in self.stored)
+        return "ok" if not extra else "added:" + ",".join(extra)
 
     def sibling(self, d, stem2, tag=""):
         """another (stale) recording of the same session in the same directory: the lf band of this probe (created before the
@@ -186,7 +214,7 @@ def instrumented(world, d, opname, fail_at, here=False):
             raise Injected(label)
 
     def mine(path):
-        return str(path).startswith(base)
+        return str(path) == base or str(path).startswith(base + "/")
 
     orig = dict(open=builtins.open, cc=mtscomp.Writer._compress_chunk, dc=mtscomp.Reader._decompress_chunk,
                 cm=mtscomp.Writer.get_cmeta, ck=mtscomp.check, rn=pathlib.Path.rename, ul=pathlib.Path.unlink,
@@ -303,7 +331,8 @@ def one_call(world, d, st, opname, keep, fail_at, var=None):
     here = bool(var["here"])
     if here and opname != "scratch":
         raise tlc.TLCError("scratch-here mapping is for decompress_to_scratch only")
-    p = world.setup(d, st, here=here, siblings=var["siblings"], scratchdir=var["scratchdir"], leftover=var["leftover"])
+    p = world.setup(d, st, here=here, siblings=var["siblings"], scratchdir=var["scratchdir"], leftover=var["leftover"],
+                    linked=var["linked"])
     rec = {"op": opname, "keep": bool(keep), "exc": "", "steps": [], "pre": st, "fail_at": fail_at, "ns": world.ns,
            "resolved": {"bin": "skip", "cbin": "skip", "meta": "skip"}, "reopen": "skip", "var": var}
     sr = None
@@ -381,6 +410,7 @@ def one_call(world, d, st, opname, keep, fail_at, var=None):
     for s_ in steps:
         s_.setdefault("at", "")
     rec["steps"] = steps
+    rec["store"] = world.store_state()
     return rec
 
 
@@ -388,7 +418,7 @@ def resolve_record(world, d, st, var=None):
     """Reader(path) for the three entry paths of one directory"""
     import spikeglx
     var = dict(VAR0, **(var or {}))
-    p = world.setup(d, st, siblings=var["siblings"], scratchdir=var["scratchdir"])
+    p = world.setup(d, st, siblings=var["siblings"], scratchdir=var["scratchdir"], linked=var["linked"])
     res = {}
     for e in ("bin", "cbin", "meta"):
         if not p[e].exists():
@@ -409,7 +439,7 @@ def resolve_record(world, d, st, var=None):
             res[e] = "none" if st.get(e, "C") in ("C",) else "skip"
             res[e + "_exc"] = f"{type(ex).__name__}: {ex}"
     return {"op": "resolve", "keep": True, "exc": "", "pre": st, "ns": world.ns, "fail_at": None,
-            "steps": [{"pt": "end", "fs": world.project(d)}], "reopen": "skip", "var": var,
+            "steps": [{"pt": "end", "fs": world.project(d)}], "reopen": "skip", "var": var, "store": world.store_state(),
             "resolved": {k: res[k] for k in ("bin", "cbin", "meta")}, "detail": {k: v for k, v in res.items() if k.endswith("_exc")}}
 
 
@@ -432,7 +462,8 @@ def judge(ctx, traces, label):
         by_n.setdefault(-(-t["ns"] // CHUNK), []).append(i)
     for n, idx in sorted(by_n.items()):
         part = [{"op": traces[i]["op"], "keep": traces[i]["keep"], "steps": traces[i]["steps"],
-                 "resolved": traces[i]["resolved"], "reopen": traces[i].get("reopen", "skip")} for i in idx]
+                 "resolved": traces[i]["resolved"], "reopen": traces[i].get("reopen", "skip"),
+                 "store": "ok" if traces[i].get("store", "skip") in ("ok", "skip") else "touched"} for i in idx]
         vs = tracecheck.validate(ctx, "trace/CompressTrace.tla", write_cfg(ctx, n), part, label=f"{label}{n}",
                                  nstates=nstates, jvms=4, workers=2)
         for v in vs:
